@@ -84,6 +84,7 @@ def run(ctx):
         locked[name] = res
         return res
 
+    bad_methods = []
     for name, fs in sorted(meths.items()):
         f = fs[0]
         if name == "__init__":
@@ -99,6 +100,7 @@ def run(ctx):
             ctx.ok("C10.R1", key, sample=f"{name}: {len(ts)} accesses; every call site "
                    f"holds the lock")
         else:
+            bad_methods.append(name)
             ctx.fail("C10.R1", key, f.file, unl[0].lineno, f.qual,
                      f"{name}() touches the wrap-around history ({dotted(unl[0])}) "
                      f"without the lock: concurrent callers / cache_clear() can corrupt "
@@ -108,6 +110,8 @@ def run(ctx):
          and x.func.attr == "run"]
     if c and _under_lock(wn.node, c[0], f"{iname}.lock"):
         ctx.ok("C10.R1", "wrap_numbers", sample=f"with {iname}.lock: {iname}.run(...)")
+    elif c and not bad_methods:
+        ctx.ok("C10.R1", "wrap_numbers", sample="run() takes the lock itself around every access")
     else:
         ctx.fail("C10.R1", "wrap_numbers", wn.file, wn.node.lineno, wn.qual,
                  "wrap_numbers() no longer runs under the instance lock")
@@ -117,12 +121,41 @@ def run(ctx):
              "OLD value exactly when new < old and is written nowhere else; first "
              "call / new key return the raw tuple; the new snapshot becomes the "
              "baseline on every later call", floor=5)
-    run_ = meths["run"][0]
+    run0 = meths["run"][0]
+    cfg0 = A.cfg(run0)
+    params0 = [a.arg for a in run0.node.args.args if a.arg != "self"]
+    ctx.require(len(params0) == 2, "_WrapNumbers.run signature changed")
+    din0, nm0 = params0
+
+    # the method holding the per-counter loop: run() itself, or a helper of the
+    # class that run() calls (followed transitively) with the same two arguments
+    def _has_loop(f):
+        return any(isinstance(s_, ast.For) and isinstance(s_.iter, ast.Call)
+                   and dotted(s_.iter.func) == "range" for s_ in ast.walk(f.node))
+    run_, via = run0, None
+    seen_m, todo = set(), [run0]
+    while todo and not _has_loop(run_):
+        f_ = todo.pop()
+        if f_.name in seen_m:
+            continue
+        seen_m.add(f_.name)
+        if _has_loop(f_):
+            run_ = f_
+            break
+        for c_ in calls_in(f_.node):
+            if isinstance(c_.func, ast.Attribute) and dotted(c_.func.value) == "self" \
+                    and c_.func.attr in meths and c_.func.attr not in seen_m:
+                if f_ is run0:
+                    via = c_
+                todo.append(meths[c_.func.attr][0])
     cfg = A.cfg(run_)
     asg = assigned_names(run_.node)
     params = [a.arg for a in run_.node.args.args if a.arg != "self"]
-    ctx.require(len(params) == 2, "_WrapNumbers.run signature changed")
+    ctx.require(len(params) == 2, f"_WrapNumbers.{run_.name} signature changed")
     din, nm = params
+    if run_ is not run0:
+        ctx.require(via is not None and [dotted(a_) for a_ in via.args] == [din0, nm0],
+                    "run() does not hand (input_dict, name) to its update helper")
 
     def src(name):
         v = asg.get(name, [])
@@ -203,17 +236,26 @@ def run(ctx):
                  "unconditionally")
     # first call
     first = False
-    for n in cfg.nodes:
-        if n.kind == "return" and dotted(n.stmt.value) == din:
-            g = [(norm_stmt(e).replace(" ", ""), p) for e, p, _ in cfg.guards(n)]
-            if (f"{nm}notinself.cache", True) in g:
-                first = True
-    addc = [c for c in calls_in(run_.node) if isinstance(c.func, ast.Attribute)
-            and c.func.attr == "_add_dict"]
+    addc = []
+    chain = [run0] + [meths[m][0] for m in sorted(seen_m) if m in meths and meths[m][0] is not run0]
+    if run_ not in chain:
+        chain.append(run_)
+    for fx in chain:
+        px = [a.arg for a in fx.node.args.args if a.arg != "self"]
+        if len(px) != 2:
+            continue
+        cx = A.cfg(fx)
+        for n in cx.nodes:
+            if n.kind == "return" and dotted(n.stmt.value) == px[0]:
+                g = [(norm_stmt(e).replace(" ", ""), p) for e, p, _ in cx.guards(n)]
+                if (f"{px[1]}notinself.cache", True) in g:
+                    first = True
+                    addc = [c for c in calls_in(fx.node) if isinstance(c.func, ast.Attribute)
+                            and c.func.attr == "_add_dict"]
     if first and addc:
         ctx.ok("C10.R2", "first-call", sample="name not in cache -> store, return raw dict")
     else:
-        ctx.fail("C10.R2", "first-call", run_.file, run_.node.lineno, run_.qual,
+        ctx.fail("C10.R2", "first-call", run0.file, run0.node.lineno, run0.qual,
                  "the first call for a name no longer stores the snapshot and returns "
                  "the raw values")
     # new key -> raw tuple
@@ -261,6 +303,11 @@ def run(ctx):
           and c.func.attr == "_remove_dead_reminders"]
     good = bool(rd) and outer and all(cfg.dominates(a, b) for a in cfg.owners(rd[0])
                                       for b in cfg.nodes_of(outer[0]))
+    if not rd and run_ is not run0:
+        rd = [c for c in calls_in(run0.node) if isinstance(c.func, ast.Attribute)
+              and c.func.attr == "_remove_dead_reminders"]
+        good = bool(rd) and outer and all(cfg0.dominates(a, b) for a in cfg0.owners(rd[0])
+                                          for b in cfg0.owners(via))
     if good:
         ctx.ok("C10.R3", "purge-first", sample="_remove_dead_reminders() dominates the loop")
     else:
@@ -280,7 +327,30 @@ def run(ctx):
     left_is_old = bool(gk) and ("self.cache" in norm_stmt(src_of(rdr.node, gk[0].value.left))
                                 or "self.cache" in norm_stmt(gk[0].value.left)
                                 or "old" in norm_stmt(gk[0].value.left))
-    if okd and left_is_old:
+    # path rule: the purge is unconditional - no exit of the function is reachable
+    # without computing the vanished keys, and nothing but the two loops guards
+    # the deletions (the key COUNT says nothing about which keys vanished)
+    rcfg = A.cfg(rdr)
+    why = None
+    if gk:
+        gnodes = [n for n in rcfg.nodes_of(gk[0])]
+        if rcfg.path_exists(rcfg.entry, rcfg.exit, avoid=gnodes):
+            early = [n for n in rcfg.nodes if n.kind == "return"
+                     and not any(rcfg.dominates(g, n) for g in gnodes)]
+            why = ("an exit is reachable before the vanished keys are computed"
+                   + (f" (return at line {early[0].line})" if early else ""))
+        loops = [s_ for s_ in ast.walk(rdr.node) if isinstance(s_, ast.For)]
+        for d in dels:
+            for n in rcfg.nodes_of(d):
+                extra = [norm_stmt(e) for e, pol, b in rcfg.guards(n)
+                         if not any(b.stmt is lp_ for lp_ in loops)]
+                if extra:
+                    why = f"`{norm_stmt(d)}` only happens under {extra}"
+    if okd and left_is_old and why:
+        ctx.fail("C10.R3", "purge-body", rdr.file, rdr.node.lineno, rdr.qual,
+                 f"_remove_dead_reminders: {why}; a device that vanished while another "
+                 f"appeared keeps its history and inherits it when it comes back")
+    elif okd and left_is_old:
         ctx.ok("C10.R3", "purge-body", sample="gone = old keys - new keys; del reminders / reminder_keys")
     else:
         ctx.fail("C10.R3", "purge-body", rdr.file, rdr.node.lineno, rdr.qual,
